@@ -1,6 +1,7 @@
 import T4V.Proofs.Post
 import T4V.Proofs.Inline
 import T4V.Proofs.ConvertAll
+import T4V.Proofs.PostDedup
 /-!
 # Property C13 — de-duplication and inlining options never change the geometry
 -/
@@ -14,6 +15,23 @@ theorem dedup_merges_equal_definitions (surfs : List (Nat × String)) (a b : Nat
     (h : (a, b) ∈ (removeDuplicates surfs).2) :
     ∃ k, (a, k) ∈ surfs ∧ (b, k) ∈ surfs ∧ b ∈ (removeDuplicates surfs).1 :=
   removeDuplicates_sound surfs a b h
+
+/-- every surface of the table is renumbered to a representative (no reference is left dangling by the
+renumbering of the volumes) -/
+theorem dedup_every_surface_has_representative (surfs : List (Nat × String)) (a : Nat) (k : String)
+    (h : (a, k) ∈ surfs) : ∃ b, (a, b) ∈ (removeDuplicates surfs).2 :=
+  removeDuplicates_total surfs a k h
+
+/-- after de-duplication **no two written surfaces have the same definition** -/
+theorem dedup_survivors_pairwise_different (surfs : List (Nat × String)) (hnd : (surfs.map (·.1)).Nodup)
+    (b1 b2 : Nat) (k : String) (h1 : b1 ∈ (removeDuplicates surfs).1) (h2 : b2 ∈ (removeDuplicates surfs).1)
+    (d1 : (b1, k) ∈ surfs) (d2 : (b2, k) ∈ surfs) : b1 = b2 :=
+  removeDuplicates_survivors_distinct surfs hnd b1 b2 k h1 h2 d1 d2
+
+/-- of a group of identical surfaces the lowest number survives -/
+theorem dedup_lowest_number_survives (surfs : List (Nat × String)) (a b : Nat)
+    (h : (a, b) ∈ (removeDuplicates surfs).2) : b ≤ a :=
+  removeDuplicates_lowest surfs a b h
 
 /-- renumbering the surfaces of all volumes keeps the denotation of every volume, for every point
 (sense assignment) at which merged surfaces have the same sense — which (by the theorem above) is
